@@ -204,6 +204,10 @@ def chain_defs(flow, at, name, _seen=None):
         if id(d) in seen:
             continue
         seen.add(id(d))
+        if d.kind == "assign" and isinstance(d.value, ast.Name) and d.node is not None and d.value.id != name:
+            # `b = a`: another name of the same array -- its definitions are a's
+            out += chain_defs(flow, d.node, d.value.id, seen)
+            continue
         out.append(d)
         if d.kind == "aug" and d.node is not None:
             out += chain_defs(flow, d.node, name, seen)
